@@ -40,7 +40,7 @@ atexit.register(_cleanup)
 
 
 def new_tmpdir() -> str:
-    base = "/dev/shm" if os.path.isdir("/dev/shm") and os.access("/dev/shm", os.W_OK) else None
+    base = os.environ.get("VERIF_TMPBASE") or ("/dev/shm" if os.path.isdir("/dev/shm") and os.access("/dev/shm", os.W_OK) else None)
     d = tempfile.mkdtemp(prefix=f"pynverif{os.getpid()}_", dir=base)
     _tmpdirs.append(d)
     return d
